@@ -35,7 +35,7 @@ fn enc_strategy(max_medium: usize, mult64: bool) -> BoxedStrategy<EncCase> {
             (gen::cfg(kind, max_medium), gen::engine(), gen::data_spec(), 1usize..=4).prop_map(
                 move |((mut cfg, _), eng, data, blocks)| {
                     if mult64 {
-                        cfg.b = 64 * if cfg.k + cfg.r > 700 { 1 } else { blocks };
+                        cfg.b = if cfg.k + cfg.r > 700 { (cfg.b / 64).max(1) * 64 } else { 64 * blocks };
                     }
                     EncCase { high, eng, cfg, data }
                 },
